@@ -8,7 +8,7 @@ mod json;
 mod sem_axcut;
 mod native;
 mod pipeline;
-mod props;
+pub mod props;
 mod rng;
 mod trace;
 
@@ -117,6 +117,41 @@ fn real_main() -> i32 {
             out.set("prop", json::J::s(prop));
             if let Err(e) = res { out.set("error", json::J::s(e)); }
             println!("{}", out.to_string());
+        }
+        Some("emutest") => {
+            // emutest <isa> <seed0> <n> : AxCut positional machine vs emulator on generated programs
+            pipeline::install_quiet_panic_hook();
+            let isa = props::backend::Isa::from_name(&args[2]).expect("isa: x86_64|aarch64|rv64");
+            let seed0: u64 = args.get(3).and_then(|s| s.parse().ok()).unwrap_or(1);
+            let n: u64 = args.get(4).and_then(|s| s.parse().ok()).unwrap_or(100);
+            let mut stats = std::collections::BTreeMap::<String, u64>::new();
+            for seed in seed0..seed0 + n {
+                let case = props::chain::gen_fun_case(seed, gen_fun::EffectMode::Anywhere, |p, _| { if isa == props::backend::Isa::Rv { p.prints = 0; } });
+                let st = match props::chain::stages(&case.src) { Ok(s) => s, Err(_) => { *stats.entry("stage-error".into()).or_insert(0) += 1; continue; } };
+                for a in case.args.iter().take(2) {
+                    let (reference, axst) = sem_axcut::run(&st.linear, a, sem_axcut::Mode::Positional, &Default::default());
+                    if !reference.defined() { *stats.entry("ref-undefined".into()).or_insert(0) += 1; continue; }
+                    if isa == props::backend::Isa::Rv && (!reference.prints.is_empty() || axst.max_env > 14) { *stats.entry("rv-out-of-domain".into()).or_insert(0) += 1; continue; }
+                    let asm = match props::backend::codegen(isa, st.linear.clone()) { Ok(x) => x, Err(e) => { *stats.entry(format!("codegen: {}", e.describe().chars().take(50).collect::<String>())).or_insert(0) += 1; continue; } };
+                    let verdict = match props::backend::emulate(isa, &asm.text, a, &Default::default()) {
+                        Err(e) => format!("PARSE {e}"),
+                        Ok(r) => {
+                            if let Some(v) = &r.violation { format!("VIOL {:?} line {}: {}", v.kind, v.pc_line, v.msg) }
+                            else if let Some(d) = trace::diff(&reference, &r.outcome) { format!("DIFF {d}") }
+                            else { "OK".to_string() }
+                        }
+                    };
+                    if verdict != "OK" {
+                        println!("seed {seed} args {a:?}: {verdict}");
+                        if std::env::var("EMUTEST_DUMP").is_ok() {
+                            std::fs::write(format!("/tmp/emutest-{seed}.sc"), &case.src).unwrap();
+                            std::fs::write(format!("/tmp/emutest-{seed}.asm"), &asm.text).unwrap();
+                        }
+                    }
+                    *stats.entry(verdict.split(' ').next().unwrap().to_string()).or_insert(0) += 1;
+                }
+            }
+            println!("{stats:?}");
         }
         Some("dump") => {
             use printer::Print;
